@@ -190,6 +190,23 @@ def run(report, replay=None):
         image['id'] = len(batch)
         batch.append(image)
         meta[image['id']] = ('repo:' + name, text)
+    # texts that break a documented rule, and shapes on the edges of the grammar: most are rejected; whatever the
+    # compiler accepts is a script, and its image has to satisfy the same invariants
+    from harness import c06
+    hostile = list(c06.CORPUS)
+    for _ in range(400 if tier == 'thorough' else 120):
+        hostile.append(c06.inject(rng)[1])
+    for text in hostile:
+        try:
+            image, errors = export_image(text)
+        except BaseException:
+            continue                     # (a compiler crash is C06's business)
+        if image is None:
+            rejected += 1
+            continue
+        image['id'] = len(batch)
+        batch.append(image)
+        meta[image['id']] = ('hostile', text)
     world.close()
     shards = tlc.split(batch, 16)
     results = tlc.run_sharded('Image', shards, timeout=1500, heap='3g')
